@@ -701,6 +701,7 @@ func runSrv(c SrvCase, ctx *hx.Ctx) *hx.Failure {
 	h := &gateHandler{n: c.N, sizes: c.Sizes, gate: make(chan struct{}), want: map[uint16][]byte{}}
 	var client net.Conn
 	var ln net.Listener
+	served := false
 	switch c.Transport {
 	case "mem":
 		ml := &memListener{ch: make(chan net.Conn, 1), done: make(chan struct{})}
@@ -722,6 +723,8 @@ func runSrv(c SrvCase, ctx *hx.Ctx) *hx.Failure {
 				tlsCert = cert
 			})
 			ln = tls.NewListener(l, &tls.Config{Certificates: []tls.Certificate{tlsCert}})
+			go server.ServeTCP(ln, h, server.TCPServerOpts{IdleTimeout: 30 * time.Second}) // must accept before the client's handshake can finish
+			served = true
 			cc, err := tls.Dial("tcp", l.Addr().String(), &tls.Config{InsecureSkipVerify: true})
 			if err != nil {
 				l.Close()
@@ -737,7 +740,9 @@ func runSrv(c SrvCase, ctx *hx.Ctx) *hx.Failure {
 			client = cc
 		}
 	}
-	go server.ServeTCP(ln, h, server.TCPServerOpts{IdleTimeout: 30 * time.Second})
+	if !served {
+		go server.ServeTCP(ln, h, server.TCPServerOpts{IdleTimeout: 30 * time.Second})
+	}
 	defer ln.Close()
 	defer client.Close()
 
